@@ -14,7 +14,14 @@ type Relationship struct {
 }
 
 func (s *Relationship) Merge(other *Relationship) {
-	s.Properties.Merge(other.Properties)
+	if other.Properties != nil {
+		// Entities may be created without properties
+		if s.Properties == nil {
+			s.Properties = NewProperties()
+		}
+
+		s.Properties.Merge(other.Properties)
+	}
 }
 
 func (s *Relationship) SizeOf() size.Size {
